@@ -32,7 +32,9 @@ RULE = ("stencils: grid n_x,n_y in 2..12 (column-major, y fastest, top to bottom
         "families limited to <= 1 radian of phase per coarse cell and axis margin >= 0.5 box, f = quadratic + sin*sin in box "
         "coordinates, anisotropy as above; non-trivial = curved flux map (anisotropy != 1, or anisotropy == 1: metamorphic "
         "class). "
-        "Distinct = distinct case hash (continuous parameters: practically every case).")
+        "Distinct = distinct case hash (continuous parameters: practically every case). While the finding C20-dnorm-cx is "
+        "open, flux maps with d psi/dy != 0 are excluded from refine and from the anisotropy-1 cases of admt (label "
+        "excluded_known); its probe replays/C20/known-dnorm-cx.json is replayed on every run.")
 ASSUMPTIONS = [
     "grids are built exactly as the docstring and test_admt.py describe (column-major, first voxel of a column on top, "
     "vertex order of the test); other orderings are not documented input",
@@ -287,8 +289,10 @@ def stencil_strategy(draw):
 
 
 def _excluded():
-    """Single switch for the open finding C20-dnorm-cx: while it is open only flux maps psi = psi(x) are generated (the
-    wrong term is multiplied by the discrete d psi/dy, so that is exactly the class on which the code is right).
+    """Single switch for the open finding C20-dnorm-cx.  While it is open, flux maps that depend on y are not generated
+    where the wrong term matters: `refine` (all cases) and the anisotropy-1 cases of `admt` (the identity with the
+    Laplacian) only get psi = psi(x) - the wrong term is multiplied by the discrete d psi/dy, so that is exactly the
+    class on which the code is right.  finite / annihilates-constants keep the full class.
     VERIF_C20_NO_EXCLUSION=1 (development only) generates the full class, to validate a candidate fix in a scratch copy."""
     return is_open(KNOWN) and not os.environ.get("VERIF_C20_NO_EXCLUSION")
 
